@@ -310,7 +310,9 @@ def rewind(ctx):
     s = ZF(ctx, "seek")
     gs = cfg_of(s)
     rw = [c for c in calls_in(s) if call_name(c) == "self._rewind"]
-    ctx.need(rw, "seek no longer rewinds")
+    if not rw:
+        ctx.bad(s, "seek never rewinds: a backward seek cannot be honoured (the decompressor only moves forward)", key="%s::%s.seek::rewind" % (CP, Z))
+        return
     for c in rw:
         conds = gs.conditions_at(gs.nodes_of(c))
         ctx.check(any(unparse(t) in ("offset < self._pos", "self._pos > offset") and pol for (_, t, pol) in conds), c, "seek rewinds iff the absolute target is before the current position")
